@@ -1,7 +1,7 @@
 # C15 - After a fatal error or closure a session stays dead
 HARNESSES = [
     COMMON["enc_gate"](12), COMMON["enc_gate"](13),
-    COMMON["dec12"]("poison12", ["C15"], COMMON["dec12_cases"](64, 40, dtls_only=("dtls10", "dtls12n")) + COMMON["dec12_cases"](96, 56, tier="thorough")),
+    COMMON["dec12"]("poison12", ["C15"], COMMON["dec12_cases"](64, 40, dtls_only=("dtls10", "dtls12n")) + COMMON["dec12_cases"](96, 40, tier="thorough", dtls_only=("dtls10n", "dtls12"))),
     COMMON["dec13"]("poison13", ["C15"], ns=((48, "quick"), (96, "thorough"))),
     COMMON["api_recv"](only=("sent_tls12",)),
 ]
